@@ -1,10 +1,83 @@
 package main
 
 import (
-	_ "github.com/yuin/gopher-lua/parse"
-	_ "golang.org/x/tools/go/callgraph/vta"
-	_ "golang.org/x/tools/go/packages"
-	_ "golang.org/x/tools/go/ssa/ssautil"
+	"flag"
+	"fmt"
+	"os"
+	"sort"
+	"strings"
+
+	"gzverify/load"
+	"gzverify/px"
+	"gzverify/rules"
 )
 
-func main() {}
+func main() {
+	prop := flag.String("prop", "", "property id (C01..C20)")
+	tier := flag.String("tier", "quick", "quick|thorough")
+	verbose := flag.Bool("v", false, "verbose")
+	only := flag.String("only", "", "print only this obligation id")
+	dump := flag.String("dump", "", "debug: pkg:func — print the paths of a function")
+	warm := flag.Bool("warm", false, "load everything once (warms the go build cache)")
+	flag.Parse()
+	if t := os.Getenv("VERIF_TIER"); t != "" && *tier == "" {
+		*tier = t
+	}
+	if *warm {
+		p, err := load.Load(load.Options{})
+		if err != nil {
+			fmt.Println("warm:", err)
+			os.Exit(1)
+		}
+		fmt.Printf("warm: %d packages, %d errors\n", len(p.Pkgs), len(p.Errors))
+		return
+	}
+	if *dump != "" {
+		doDump(*dump)
+		return
+	}
+	if *prop == "" {
+		fmt.Println("usage: gzverify -prop Cxx -tier quick|thorough")
+		os.Exit(2)
+	}
+	os.Exit(rules.Run(*prop, *tier, *verbose, *only))
+}
+
+func doDump(spec string) {
+	i := strings.Index(spec, ":")
+	pkg, fn := spec[:i], spec[i+1:]
+	p, err := load.Load(load.Options{})
+	if err != nil {
+		fmt.Println(err)
+		os.Exit(1)
+	}
+	if len(p.Errors) > 0 {
+		fmt.Println(p.Errors)
+	}
+	closure := ""
+	if j := strings.Index(fn, "$"); j >= 0 {
+		closure = fn[j:]
+		fn = fn[:j]
+	}
+	f := p.Func(pkg, fn)
+	if f == nil {
+		fmt.Println("no such function")
+		os.Exit(1)
+	}
+	if closure != "" {
+		for _, a := range f.AnonFuncs {
+			if strings.HasSuffix(a.Name(), closure) {
+				f = a
+			}
+		}
+	}
+	paths, in, err := px.Run(px.Config{Prog: p.SSA, MayPanic: func(ci *px.CallInfo) bool { return ci.IsDyn() }}, f)
+	fmt.Printf("%s: %d paths, err=%v stats=%+v\n", f, len(paths), err, in.Stats)
+	sort.SliceStable(paths, func(i, j int) bool { return len(paths[i].Events) < len(paths[j].Events) })
+	for k, pa := range paths {
+		fmt.Printf("--- path %d\n", k)
+		for _, l := range pa.Trace(p.Pos, 0) {
+			fmt.Println("   ", l)
+		}
+	}
+}
